@@ -121,6 +121,10 @@ def policyMemoryTypes : List String := [
   "ArgumentConditions", "[]Condition", "Condition", "Action", "Operation", "uint32", "uint64",
   "*arch.Info", "arch.Info", "map[string]int", "map[int]string", "arch.AuditArch", "int"]
 
+/-- the one store into policy memory the compiler may make: the unexported architecture cache of a `Policy`, reached through a
+    receiver, a parameter or a local pointer (whichever function of the graph does it) -/
+def archCachePaths : List String := ["recv-ptr.arch", "param.arch", "local.arch"]
+
 /-- `range` over a map, allowed because the loop body is order-independent:
     * `Program.Assemble`: `for label, indices := range p.labels { … labelsAt[index] = append(labelsAt[index], label) }` — the only
       use of `labelsAt[i]` is `for _, label := range labelsAt[i] { dest[label] = len(out) }`, which stores the *same* value for every
@@ -165,10 +169,11 @@ theorem labels_order_irrelevant (l₁ l₂ : List Nat) (h : l₁.Perm l₂) (v :
        the compile graph (assigned and ranged expressions are compared by their *path* — the root variable replaced by its kind
        (receiver, parameter, local), field names kept — so that renaming a variable changes nothing);
     4. no store is rooted in a package-level variable or in an expression the translator could not resolve;
-    5. in the compile graph the only store into an object of a type reachable from the caller's policy is `p.arch = arch`
-       in `Policy.Assemble` (the unexported architecture cache — `arch` is not an exported field), so **no exported field
+    5. in the compile graph the only store into an object of a type reachable from the caller's policy is the one into the field
+       `arch` of a `Policy` (the unexported architecture cache — `arch` is not an exported field), so **no exported field
        of the caller's policy, no element of its slices and no `arch.Info` table is ever written**;  all other stores through
-       receivers or parameters write `Program` values (the builder created by `NewProgram()` inside the graph);
+       receivers or parameters write objects of types that do not occur in policy memory (the `Program` builder created by
+       `NewProgram()` inside the graph and whatever helper structures the compiler allocates itself);
     6. memory that can be shared with the caller is passed to no function outside the module except `strings.Join` (reads) and
        `append`, and an `append` whose destination has a policy-memory type (`[]string`) appends to a *fresh local* slice
        (declared nil / `make` / literal, only ever re-assigned from `append` of itself);
@@ -182,9 +187,9 @@ theorem compile_pure :
         (m.fn ∈ compileGraph → (m.fn, m.text) = ("Program.Assemble", "recv-ptr.labels"))) ∧
     (∀ s ∈ Gen.Purity.stores, s.rootKind ≠ "pkgvar" ∧ s.rootKind ≠ "complex") ∧
     (∀ s ∈ Gen.Purity.stores, s.fn ∈ compileGraph →
-        (s.objType ∈ policyMemoryTypes → (s.fn, s.path) = ("Policy.Assemble", "recv-ptr.arch")) ∧
+        (s.objType ∈ policyMemoryTypes → s.objType = "Policy" ∧ s.path ∈ archCachePaths) ∧
         (s.rootKind = "recv-ptr" ∨ s.rootKind = "param" ∨ s.rootKind = "recv-val" →
-            s.objType = "Program" ∨ s.objType = "map[Label][]Index" ∨ (s.fn, s.path) = ("Policy.Assemble", "recv-ptr.arch"))) ∧
+            s.objType ∉ policyMemoryTypes ∨ (s.objType = "Policy" ∧ s.path ∈ archCachePaths))) ∧
     (∀ c ∈ Gen.Purity.extCalls, c.fn ∈ compileGraph →
         c.callee ∈ readOnlyCallees ∨ (c.callee = "append" ∧ (c.dstType ∉ policyMemoryTypes ∨ c.dstFresh = true))) ∧
     (∀ s ∈ Gen.Purity.stores, s.fn ∉ compileGraph →
